@@ -916,6 +916,9 @@ func checkGetters(p *load.Program, r *Roles, col *Col, res *UnitResult, run func
 		e := run(fn, nil, Mode{}, &unlockMon{col: col, label: "BaseNode." + g})
 		field := lf.load(eng.Param(0, fn.Params[0].Name()))
 		for _, rt := range e.Returns {
+			if !rt.Panic && (&eng.Ctx{E: e, St: rt.State}).IsNil(eng.Param(0, fn.Params[0].Name())) == eng.TriTrue {
+				continue // a guard for a nil receiver: no node, nothing the properties speak about
+			}
 			if rt.Panic || len(rt.Vals) != 1 {
 				col.Check("C19.R5", "BaseNode."+g+":identity", false, rt.Pos, "getter panics", nil)
 				continue
